@@ -302,6 +302,9 @@ class TGen:
                 vals = [rng.choice(FLOATS) if k == "f" else rng.randint(0, 5) for _ in range(n)]
             fk = rng.randint(0, max(0, n - 1)) if (self.cfg.get("faults") and rng.random() < 0.25) else None
             return ("setcol", tid, col, k, tuple(vals), rng.choice(["item", "attr"]), fk)
+        if kind == "vec_cols":
+            return ("vec_cols", rng.choice([0, 1, 2, 3, 5]), rng.choice([1, 2, 3]), rng.choice([2, 3]),
+                    tuple(rng.choice(self.alpha) for _ in range(5)))
         if kind == "newcol_list":
             self.newcol += 1
             return ("newcol_list", tid, "c%d" % self.newcol, rng.choice(["ragged", "ragged", "numbers", "strings"]))
